@@ -163,7 +163,7 @@ class Geo:
         d = self.d
         if self.kind in ("image", "default2d", "cont2d", "mapped_img"):
             return d["r"] * d["c"]
-        if self.kind == "step":
+        if self.kind in ("step", "kl"):
             return d["nodes"]
         if self.kind == "mapped_over":
             return self.inner.nfun
@@ -179,6 +179,8 @@ class Geo:
     def pdim(self):
         if self.kind == "step":
             return self.d["steps"]
+        if self.kind == "kl":
+            return self.d["modes"]
         if self.kind == "mapped_over":
             return self.inner.pdim
         return self.nfun
@@ -196,6 +198,22 @@ class Geo:
             lo, hi = i * L / steps, (i + 1) * L / steps
             out.append([k for k in range(nodes) if ((k >= lo) if i == 0 else (k > lo)) and k <= hi])
         return out
+
+    def kl_mats(self):
+        """KLExpansion from its documented formulas (scipy.fftpack idst/dst type 2 written out), as exact rationals of the
+        float64 entries: par2fun p = K p with K[k][i] = sin(pi (2k+1)(i+1)/(2N)) / ((i+1)^decay * normalizer)  (i < N-1),
+        fun2par f = M f with M[i][n] = (i+1)^decay * normalizer * 2 sin(pi (i+1)(2n+1)/(2N)) / N"""
+        import math
+        d = self.d
+        N, Mo, dec, nz = d["nodes"], d["modes"], float(Fraction(d["decay"])), float(Fraction(d["normalizer"]))
+        K = [[F(0)] * Mo for _ in range(N)]
+        for i in range(Mo):
+            c = 1.0 / (float(i + 1) ** dec * nz)
+            for k in range(N):
+                v = 0.5 * (-1) ** k * c if i == N - 1 else c * math.sin(math.pi * (2 * k + 1) * (i + 1) / (2 * N))
+                K[k][i] = frac(v)
+        Mi = [[frac(float(i + 1) ** dec * nz * 2.0 * math.sin(math.pi * (i + 1) * (2 * n + 1) / (2 * N)) / N) for n in range(N)] for i in range(Mo)]
+        return K, Mi
 
     def par_order(self):
         """for 2-d geometries: inv[k] = C-order flat index of the function value that parameter k is"""
@@ -220,6 +238,9 @@ class Geo:
             raise Refuse("shape")
         if k == "mapped_over":
             return [horner(ufs(d["cs"]), t) for t in self.inner.o_par2fun(p)]
+        if k == "kl":
+            K, _ = self.kl_mats()
+            return [sum((K[r][i] * p[i] for i in range(len(p))), F(0)) for r in range(len(K))]
         if k in ("default1d", "cont1d", "discrete"):
             return list(p)
         if k in ("image", "default2d", "cont2d", "mapped_img"):
@@ -251,6 +272,9 @@ class Geo:
             if d.get("ics") is None:
                 raise Refuse("no inverse map")
             return self.inner.o_fun2par([horner(ufs(d["ics"]), t) for t in f])
+        if k == "kl":
+            _, Mi = self.kl_mats()
+            return [sum((Mi[i][n] * f[n] for n in range(len(f))), F(0)) for i in range(len(Mi))]
         if k in ("default1d", "cont1d", "discrete"):
             return list(f)
         if k in ("mapped", "sub1d", "user", "mapped_img"):
@@ -297,6 +321,9 @@ class Geo:
         cs = fl(ufs(d["cs"])) if "cs" in d else None
         ics = fl(ufs(d["ics"])) if d.get("ics") is not None else None
         dcs = fl(dcoef(ufs(d["cs"]))) if "cs" in d else None
+        if k == "kl":
+            return G.KLExpansion(np.linspace(0.0, 1.0, d["nodes"]), decay_rate=float(Fraction(d["decay"])),
+                                 normalizer=float(Fraction(d["normalizer"])), num_modes=d["modes"])
         if k == "mapped_over":
             mp = _fn(("map", fkey), lambda: (lambda x: horner(cs, x)))
             imp = _fn(("imap", fkey), lambda: (lambda x: horner(ics, x))) if ics is not None else None
@@ -332,6 +359,9 @@ class Geo:
     # ---- Coq descriptor
     def coq(self):
         d, k = self.d, self.kind
+        if k == "kl":
+            K, Mi = self.kl_mats()
+            return "(mkGeo KStep %s %s (CvLin %s %s) None F2Base None %s)" % (cnat(self.pdim), cnat(self.nfun), qm(K), qm(Mi), cnat(3))
         if k == "mapped_over":
             # par2fun = map o inner.par2fun, fun2par = inner.fun2par o imap; hasattr(wrapper, "gradient") is False
             inn = self.inner
@@ -377,6 +407,8 @@ class Geo:
 
     def name(self):
         d = self.d
+        if self.kind == "kl":
+            return "kl%d/%d" % (d["modes"], d["nodes"])
         if self.kind == "mapped_over":
             return "mapped(%s)%s" % (self.inner.name(), "+imap" if d.get("ics") is not None else "-noimap")
         s = self.kind
@@ -458,8 +490,52 @@ def o_F(A, cs, b, x):
     return [sum((A[i][j] * ph[j] for j in range(len(x))), 0) + b[i] for i in range(len(A))]
 
 
+FSTYLES = ["def", "lambda", "defaults", "partial", "method", "callable", "static"]
+
+
+def _style_callable(f, style):
+    """the same one-argument function declared in another way (the argument is called x in all of them)"""
+    import functools
+    if style in (None, "def"):
+        return f
+    if style == "lambda":
+        return lambda x: f(x)
+    if style == "defaults":
+        def g(x, scale=1.0, unused=None):
+            return scale * f(x) if scale != 1.0 else f(x)
+        return g
+    if style == "partial":
+        def g2(x, offset):
+            return f(x) + offset
+        return functools.partial(g2, offset=0.0)
+
+    class Holder:
+        def meth(self, x):
+            return f(x)
+
+        def __call__(self, x):
+            return f(x)
+
+        @staticmethod
+        def st(x):
+            return f(x)
+    return {"method": Holder().meth, "callable": Holder(), "static": Holder.st}[style]
+
+
 def build_model(cuqi, meta, dg_obj, rg_obj):
-    """returns (model, raw_forward_callable)"""
+    """returns (model, raw_forward_callable).  meta["reassign"]: the model is first built with placeholder geometries and
+    its range_geometry / domain_geometry attributes are assigned afterwards (a model object is re-targeted)"""
+    if not meta.get("reassign"):
+        return _build_model_core(cuqi, meta, dg_obj, rg_obj)
+    import cuqi.geometry as G
+    dgs, rgs = Geo(**meta["dg"]), Geo(**meta["rg"])
+    model, raw = _build_model_core(cuqi, meta, G.Discrete(dgs.pdim), G.Discrete(rgs.pdim))
+    as_geom = lambda g: G._DefaultGeometry1D(g) if isinstance(g, int) else G._DefaultGeometry2D(g) if isinstance(g, tuple) else g
+    model.range_geometry, model.domain_geometry = as_geom(rg_obj), as_geom(dg_obj)
+    return model, raw
+
+
+def _build_model_core(cuqi, meta, dg_obj, rg_obj):
     from cuqi.model import Model, LinearModel, PDEModel
     A = np.array([[float(Fraction(a)) for a in row] for row in meta["A"]])
     cs, b = fl(ufs(meta["cs"])), np.array(fl(ufs(meta["b"])))
@@ -470,6 +546,7 @@ def build_model(cuqi, meta, dg_obj, rg_obj):
     def fwd(x):
         y = A @ horner(cs, x.ravel()) + b
         return y.reshape(rgs.fshape) if rgs.twod else y
+    fwd = _style_callable(fwd, meta.get("fstyle"))
 
     # flat (1-d) Jacobians / gradients have one entry per PARAMETER (shape (range_dim, domain_dim)): for a
     # 2-d domain geometry their columns follow the parameter vector's order, not numpy's C order
@@ -813,7 +890,10 @@ def run_forward_case(cuqi, meta):
     x = odd_flag(x, meta.get("ipk"))
     before = _snapshot(x)
     try:
-        out = model.forward(x, is_par=flag) if not meta.get("call") else model(x, is_par=flag)
+        if meta.get("kw"):      # the input bound by keyword
+            out = model.forward(is_par=flag, **{model._non_default_args[0]: x})
+        else:
+            out = model.forward(x, is_par=flag) if not meta.get("call") else model(x, is_par=flag)
         kind, cols, ok = observe_output(out, model.range_geometry)
         obs = ("val", kind, cols, ok, _out_dtype(out))
     except Exception as e:
@@ -833,18 +913,28 @@ def run_forward_case(cuqi, meta):
                 raise Refuse("shape")
             ecols.append(rgs.o_fun2par(o_F(A, cs, b, f)))
         ekind = {"par": 0, "fun": 0, "arrpar": 1, "arrfun": 1, "arrdefault": 1, "samples": 2, "samplesfun": 2, "subpar": 1, "subfun": 1}[base]
-        exp = ("val", ekind, ecols)
+        exp = ("val", ekind, ecols) + ((F(1, 10 ** 9),) if "kl" in (dgs.kind, rgs.kind) else ())
     except Refuse as e:
         exp = ("err", str(e))
     return obs, exp, model
 
 
+def _same(a, b, tol):
+    if not tol:
+        return a == b
+    return len(a) == len(b) and all(len(x) == len(y) and all(abs(u - v) <= tol * (1 + abs(v)) for u, v in zip(x, y)) for x, y in zip(a, b))
+
+
 def compare(obs, exp):
-    """None if the property holds on this case, else a description"""
+    """None if the property holds on this case, else a description (exp[3], if present: relative tolerance of the
+    tolerance cell class -- real-valued DST geometries; everything else is compared exactly)"""
+    tol = exp[3] if len(exp) > 3 else 0
     if exp[0] == "err":
         return None if obs[0] == "err" else "expected a refusal (%s) but a value was returned: %s" % (exp[1], _show(obs))
     if obs[0] == "err":
         return "expected %s but the call raised %s" % (_show(exp), obs[2])
+    if tol and obs[0] == "val" and obs[1] == exp[1] and _same(obs[2], exp[2], tol):
+        obs = obs[:2] + (exp[2],) + obs[3:]
     if obs[1] in (3, 4) and obs[1] - 3 == exp[1]:
         return "0-d output %s where the range geometry has par_shape (1,): expected %s" % (_show(obs), _show(exp))
     if obs[1] == 5 and exp[1] == 1 and obs[2] == exp[2] and obs[3]:
@@ -882,7 +972,7 @@ def forward_case(cuqi, meta, q):
     if meta.get("ipk") and q[5]:      # .funvals tests `is_par is True`: a numpy.bool_/int flag is never that -> used unconverted
         xin = "(InArr %s false %s)" % (dgs.coq(), qv(vals[0]))
     okflag = obs[3] if obs[0] == "val" and obs[1] not in (5, 6, 7, 8) else True      # (a subclass instance's label is part of its kind)
-    expr = "check_forward %s %s %s %s %s %s %s %s" % (coq_quirks(q), fwd, rgs.coq(), dgs.coq(), xin,
+    expr = "%s %s %s %s %s %s %s %s %s" % ("check_forward_tol" if "kl" in (dgs.kind, rgs.kind) else "check_forward", coq_quirks(q), fwd, rgs.coq(), dgs.coq(), xin,
                                                       cbool(meta["flag"]), coq_obs(obs), cbool(okflag))
     if obs[0] == "val" and len(obs) > 4 and not (obs[4].startswith("float") or obs[4] == "object"):
         expr += " && false"        # DECISION: the output dtype is floating
@@ -1288,6 +1378,17 @@ def rand_unit_triangular(rng, m):
     return [[1 if i == j else (rng.randint(-1, 1) if ((j > i) if up else (j < i)) else 0) for j in range(m)] for i in range(m)]
 
 
+def rand_operator(rng, m):
+    """unit triangular, or a row-permuted, power-of-two row-scaled unit triangular operator (pivoting and the
+    multipliers stay exact in binary floating point)"""
+    T = rand_unit_triangular(rng, m)
+    if rng.random() < 0.5:
+        return T
+    perm = list(range(m))
+    rng.shuffle(perm)
+    return [[T[perm[i]][j] * 2 ** ((i * 3 + 1) % 4 - 1) for j in range(m)] for i in range(m)]
+
+
 def model_allowed(mk, dg, rg, forward=True):
     """combinations in which the forward callable is well defined (see module docstring)"""
     if mk == "linmat" and (dg.twod or (rg.twod and forward)):
@@ -1343,7 +1444,13 @@ def run(ctx):
                             meta = dict(op="forward", mk=mk, dg=dg.d, rg=rg.d, form=form, vals=[fs(c) for c in cols], flag=flag,
                                         call=rng.random() < 0.3, **mm)
                             if mk.startswith("pde") and rng.random() < 0.6:
-                                meta["pde_op"] = rand_unit_triangular(rng, nout)
+                                meta["pde_op"] = rand_operator(rng, nout)
+                            if mk in ("jac", "dir", "nograd", "linfun"):
+                                meta["fstyle"] = rng.choice(FSTYLES)
+                            if rng.random() < 0.25:
+                                meta["reassign"] = True
+                            if rng.random() < 0.2:
+                                meta["kw"] = True
                             add(forward_case, meta)
     # ---- the default-geometry equality class, always (both array forms, step and user-subclass ranges)
     for n in [3, 4, 6]:
@@ -1432,7 +1539,16 @@ def run(ctx):
                             if mk == "jac":
                                 meta["jt"] = rng.random() < 0.4
                             if mk.startswith("pde") and rng.random() < 0.6:
-                                meta["pde_op"] = rand_unit_triangular(rng, rg.nfun)
+                                meta["pde_op"] = rand_operator(rng, rg.nfun)
+                            if mk in ("jac", "dir", "linfun"):
+                                meta["fstyle"] = rng.choice(FSTYLES)
+                            if rng.random() < 0.25:
+                                meta["reassign"] = True
+                            # the flags are irrelevant for a CUQIarray that carries the matching geometry
+                            if dform.split("=")[0] in ("arrpar", "arrfun") and rng.random() < 0.3:
+                                meta["dpar"] = rng.random() < 0.5
+                            if wform.split("=")[0] in ("arrpar", "arrfun") and rng.random() < 0.3:
+                                meta["wpar"] = rng.random() < 0.5
                             if wform == "samples":
                                 meta["wpar"] = True
                             add(gradient_case, meta)
@@ -1582,6 +1698,66 @@ def run(ctx):
                     w_in = dg.o_par2fun(pvec) if wform in ("fun", "arrfun") else pvec
                     add(gradient_case, dict(op="gradient", mk=mk, dg=dg.d, rg=rg.d, dform=dform, wform=wform, d=fs(dvec), w=fs(w_in),
                                             ddt=ddt, wdt=wdt, **mm))
+
+    # ---- NON-SQUARE 2-d function values (2x3, 3x2) through every path, always: single arrays, CUQIarrays, Samples of 2-d
+    #      function values (is_vec=False) with one and with several samples, as domain and as range, forward and gradient
+    ns_doms = [Geo(kind="image", r=2, c=3, order="C"), Geo(kind="image", r=2, c=3, order="F"), Geo(kind="cont2d", r=3, c=2),
+               Geo(kind="default2d", r=2, c=3), Geo(kind="mapped_img", r=3, c=2, order="F", cs=fs(int_aff), ics=fs(int_iaff))]
+    ns_rngs = [Geo(kind="cont1d", n=2), Geo(kind="image", r=3, c=2, order="F"), Geo(kind="cont2d", r=2, c=3), Geo(kind="mapped", n=3, cs=fs(int_aff), ics=fs(int_iaff))]
+    for di, dg in enumerate(ns_doms):
+        for fi, form in enumerate(["par", "fun", "arrpar", "arrfun", "arrfun=copy", "samples", "samplesfun", "samplesfun1", "subfun"]):
+            one = form == "samplesfun1"
+            form_ = "samplesfun" if one else form
+            base = form_.split("=")[0]
+            isfun = base in ("fun", "arrfun", "samplesfun", "subfun")
+            rg = ns_rngs[(di + fi) % len(ns_rngs)]
+            mk = ["jac", "dir", "linfun", "pde_gw", "nograd"][(di + fi) % 5]
+            if not model_allowed(mk, dg, rg):
+                mk = "jac"
+            mm = rand_model(rng, mk, dg.nfun, rg.nfun)
+            cols = []
+            for _ in range(1 if one or not base.startswith("samples") else 3):
+                pcol = rand_vec(rng, dg.pdim, halves=False)
+                cols.append(dg.o_par2fun(pcol) if isfun else pcol)
+            add(forward_case, dict(op="forward", mk=mk, dg=dg.d, rg=rg.d, form=form_, vals=[fs(c) for c in cols], flag=not isfun or base in ("arrfun", "subfun"),
+                                   call=False, fstyle=FSTYLES[(di + fi) % len(FSTYLES)], **mm))
+        if dg.kind != "mapped_img":
+            for mk in ["dir", "jac", "linfun", "pde_gw"]:
+                rg = [Geo(kind="cont1d", n=2), Geo(kind="discrete", n=3)][di % 2]
+                mm = rand_model(rng, mk, dg.nfun, rg.nfun)
+                for dform, wform in [("par", "par"), ("par", "fun"), ("arrpar", "arrfun"), ("fun", "arrpar=copy")]:
+                    p = rand_vec(rng, dg.pdim, halves=False)
+                    add(gradient_case, dict(op="gradient", mk=mk, dg=dg.d, rg=rg.d, dform=dform, wform=wform, d=fs(rand_vec(rng, rg.pdim)),
+                                            w=fs(dg.o_par2fun(p) if wform.split("=")[0] in ("fun", "arrfun") else p), mstyle="dirfirst", **mm))
+
+    # ---- TOLERANCE CELL CLASS: KLExpansion as domain and as range (real-valued DST maps; model matrices from the documented
+    #      formulas; values within 1e-9 relative), every input form; the gradient through a KL domain is refused
+    kls = [Geo(kind="kl", nodes=5, modes=3, decay="3/2", normalizer="4"), Geo(kind="kl", nodes=4, modes=4, decay="5/2", normalizer="12"),
+           Geo(kind="kl", nodes=6, modes=2, decay="2", normalizer="1/2")]
+    for ki, kg in enumerate(kls):
+        for fi, form in enumerate(["par", "fun", "arrpar", "arrfun=copy", "samples", "samplesfun", "subpar"]):
+            base = form.split("=")[0]
+            isfun = base in ("fun", "arrfun", "samplesfun")
+            for side in ["domain", "range", "both"]:
+                dg = kg if side in ("domain", "both") else [Geo(kind="cont1d", n=3), Geo(kind="mapped", n=3, cs=fs(int_aff), ics=fs(int_iaff))][(ki + fi) % 2]
+                rg = kls[(ki + 1) % 3] if side == "both" else kg if side == "range" else [Geo(kind="cont1d", n=2), Geo(kind="discrete", n=3)][(ki + fi) % 2]
+                mk = ["jac", "linfun", "pde_gw", "linmat"][(ki + fi) % 4]
+                mm = rand_model(rng, mk, dg.nfun, rg.nfun)
+                cols = []
+                for _ in range(2 if base.startswith("samples") else 1):
+                    pcol = rand_vec(rng, dg.pdim, halves=False)
+                    cols.append(dg.o_par2fun(pcol) if isfun else pcol)
+                add(forward_case, dict(op="forward", mk=mk, dg=dg.d, rg=rg.d, form=form, vals=[fs(c) for c in cols], flag=not isfun or base == "arrfun",
+                                       call=False, **mm))
+        rg = Geo(kind="cont1d", n=2)
+        mm = rand_model(rng, "jac", kg.nfun, 2)
+        for dform, wform in [("par", "par"), ("arrpar", "arrpar"), ("par", "fun")]:
+            p = rand_vec(rng, kg.pdim, halves=False)
+            add(gradient_case, dict(op="gradient", mk="jac", dg=kg.d, rg=rg.d, dform=dform, wform=wform, d=fs(rand_vec(rng, 2)),
+                                    w=fs(kg.o_par2fun(p) if wform == "fun" else p), **mm))
+        mm = rand_model(rng, "jac", 3, kg.nfun)
+        add(gradient_case, dict(op="gradient", mk="jac", dg=Geo(kind="cont1d", n=3).d, rg=kg.d, dform="par", wform="par", d=fs(rand_vec(rng, kg.pdim)),
+                                w=fs(rand_vec(rng, 3)), **mm))
 
     # ---- falsy/truthy-but-legitimate flag values: CUQIarray.is_par given as numpy.bool_ / int, always
     for dg in [Geo(kind="mapped", n=3, cs=fs(int_aff), ics=fs(int_iaff), grad=True), Geo(kind="cont1d", n=3), Geo(kind="image", r=2, c=2, order="F"),
